@@ -14,7 +14,8 @@
    props = <anchor cps|->/<tag handle cps,suffix cps|->/<tag first 0|1>
    Output (mode check):  <wf 0|1> <bound 0|1> <agree 0|1> <ntokens> <nevents>|<events of the spec, hx notation without spans>|<parser verdict>
    where agree = [map fst (parse_tokens (wrap (tokens_of t)))] = wrap_events (events_of t) and the run ended with PDone.
-   Mode tokens: the token list of wrap es ee (tokens_of t) in the notation of `hx tokens` without spans. *)
+   Mode tokens: the token list of wrap es ee (tokens_of t) in the notation of `hx tokens` without spans.
+   Mode stream: case line <keep> <ndocs> doc^n (see check_stream); same output for stream_toks / stream_events / docs_wf / docs_bound. *)
 open Model
 
 let rec pos_of_int i = if i = 1 then XH else if i land 1 = 0 then XO (pos_of_int (i lsr 1)) else XI (pos_of_int (i lsr 1))
@@ -117,11 +118,70 @@ let check line =
     (List.length toks) (List.length exp) (String.concat ";" (List.map ev_body exp))
     (if agree then "OK" else String.concat ";" (List.map ev_body got) ^ "#" ^ fin e)
 
+(* stream case:  <keep 0|1> <ndocs> doc^n,  doc = <ndirs> (V <major> <minor> | T <handle cps> <prefix cps>)^k <start 0|1> <ends> <tree> *)
+let rec nat_of_int i = if i = 0 then O else S (nat_of_int (i - 1))
+let rec dirs n r =
+  if n = 0 then ([], r) else
+  match r with
+  | "V" :: a :: b :: r -> let (l, r) = dirs (n - 1) r in (DVersion (n_of_int (int_of_string a), n_of_int (int_of_string b)) :: l, r)
+  | "T" :: h :: p :: r -> let (l, r) = dirs (n - 1) r in (DTag (of_cps h, of_cps p) :: l, r)
+  | _ -> failwith "directive"
+let doc = function
+  | nd :: r ->
+      let (ds, r) = dirs (int_of_string nd) r in
+      (match r with
+       | st :: en :: r ->
+           let (t, r) = tree r in
+           ({ ld_dirs = ds; ld_start = flagv st; ld_root = t; ld_ends = nat_of_int (int_of_string en) }, r)
+       | _ -> failwith "doc")
+  | [] -> failwith "doc"
+let check_stream line =
+  match List.filter (fun s -> s <> "") (String.split_on_char ' ' (String.trim line)) with
+  | keep :: n :: r ->
+      let keep = flagv keep in
+      let (ds, rest) = many doc (int_of_string n) r in
+      if rest <> [] then failwith "trailing input";
+      let toks = stream_toks ds in
+      let (evs, e) = parse_tokens (List.map (fun k -> (span0, k)) toks) SEnded keep in
+      let got = List.map fst evs in
+      let exp = stream_events keep ds in
+      let agree = e = PDone && got = exp in
+      Printf.sprintf "%s %s %s %d %d|%s|%s" (b (docs_wf true ds)) (b (docs_bound keep [] (n_of_int 1) ds)) (b agree)
+        (List.length toks) (List.length exp) (String.concat ";" (List.map ev_body exp))
+        (if agree then "OK" else String.concat ";" (List.map ev_body got) ^ "#" ^ fin e)
+  | _ -> failwith "case"
+
+(* flow-text case (Spec/FlowText.v):  W <cps> | S <n> (n node | p <key cps> node)^n | M <n> (<key cps> node)^n
+   output: <fwf> <is_coll> <depth>|<doc_text cps>|<wrap false false (tokens_of (lt f))>|<wrap_events false (events_of (lt f))> *)
+let rec int_of_nat = function O -> 0 | S n -> 1 + int_of_nat n
+let rec fnode = function
+  | "W" :: w :: r -> (FW (of_cps w), r)
+  | "S" :: n :: r -> let (l, r) = many fent (int_of_string n) r in (FS l, r)
+  | "M" :: n :: r -> let (l, r) = many fpair (int_of_string n) r in (FM l, r)
+  | _ -> failwith "fnode"
+and fent = function
+  | "n" :: r -> let (x, r) = fnode r in ((None, x), r)
+  | "p" :: k :: r -> let (x, r) = fnode r in ((Some (of_cps k), x), r)
+  | _ -> failwith "fent"
+and fpair = function
+  | k :: r -> let (x, r) = fnode r in ((of_cps k, x), r)
+  | [] -> failwith "fpair"
+let check_flow line =
+  let (f, rest) = fnode (List.filter (fun s -> s <> "") (String.split_on_char ' ' (String.trim line))) in
+  if rest <> [] then failwith "trailing input";
+  let t = lt f in
+  Printf.sprintf "%s %s %d|%s|%s|%s" (b (fwf f)) (b (is_coll f)) (int_of_nat (depth f))
+    (String.concat " " (List.map (fun c -> string_of_int (int_of_n c)) (doc_text f)))
+    (String.concat ";" (List.map tok_body (wrap false false (tokens_of t))))
+    (String.concat ";" (List.map ev_body (wrap_events false (events_of t))))
+
 let () =
   let mode = Sys.argv.(1) in
   let handle line =
     match mode with
     | "check" -> check line
+    | "stream" -> check_stream line
+    | "flow" -> check_flow line
     | "tokens" -> let (es, ee, t) = parse_case line in String.concat ";" (List.map tok_body (wrap es ee (tokens_of t)))
     | _ -> failwith "mode" in
   try
